@@ -103,10 +103,16 @@ def comparison_obligations(ctx: Ctx, comps):
                 continue
             structures[(inst.key, d)] = st
             ls = T.coq_levels(st)
-            terms.append(f"({ls}, {T.coq_expr(st['case_tree'])})")
+            try:
+                exp = inst.meta["expected"](d)
+            except T.Unsupported as e:
+                ctx.obligation(f"documented level list of {inst.key} on {d}", False, f"creator accepts the dialect but the documented function is absent: {e}")
+                continue
+            st["expected"] = exp
+            terms.append(f"({ls}, {T.coq_expr(st['case_tree'])}, {T.coq_expected(exp)})")
             metas.append((inst, d, st))
             ctx.hist("comparison_levels", len(st["levels"]))
-    runner = "fun c => (levels_ok (fst c) && same_expr (snd c) (gen_case (fst c)))%bool"
+    runner = ("fun c => match c with (ls, cs, ex) => (levels_ok ls && same_expr cs (gen_case ls) && levels_match ls ex)%bool end")
     bad, errs = ctx.eval_cases("C16_t2", HEADER, terms, runner, shard=40, timeout=600)
     for e in errs:
         ctx.obligation("comparison obligation shard", False, e)
@@ -124,10 +130,14 @@ def comparison_obligations(ctx: Ctx, comps):
 def explain_comparison_failure(ctx: Ctx, inst, d, st):
     """which clause of levels_ok / gen_case fails (computed in Coq)"""
     ls = T.coq_levels(st)
-    txt = HEADER + f"Definition ls := {ls}.\nDefinition cs := {T.coq_expr(st['case_tree'])}.\n" + \
-        "Eval vm_compute in (levels_ok ls, ordered_ok ls, same_expr cs (gen_case ls), map l_null ls, map is_else ls).\n"
+    txt = HEADER + f"Definition ls := {ls}.\nDefinition cs := {T.coq_expr(st['case_tree'])}.\nDefinition ex := {T.coq_expected(st['expected'])}.\n" + \
+        "Eval vm_compute in (levels_ok ls, ordered_ok ls, same_expr cs (gen_case ls), levels_match ls ex, first_mismatch ls ex 0).\n"
     ok, out = ctx.coqc_text("C16_explain", txt)
-    return " ".join(out.split())[-400:]
+    flat = " ".join(out.split())
+    import re
+    m = re.search(r"Some (\d+)", flat)
+    st["mismatch_level"] = int(m.group(1)) if m else None
+    return "(levels_ok, ordered_ok, case = gen_case, levels_match documented, first mismatching level) " + flat[-160:]
 
 
 def pctdiff_sqlite_integer_witness(ctx: Ctx):
@@ -241,11 +251,17 @@ def run(ctx: Ctx):
                       {"broken": f"same_expr obligation {inst.key} on {d}", "sql": sql, "generator": g},
                       {"dialect": d, "level": inst.family, "obligation": True}, found_input=False)
     for inst, d, st in failing_comps[:8]:
+        if any(v.get("what", "").startswith(f"{inst.key} on {d}:") for v in ctx.violations) or \
+                any(h.get("matcher", {}).get("comparison") == inst.name for h in ctx.known_hits):
+            continue            # X already exhibited a concrete failing record pair for this comparison
         why = explain_comparison_failure(ctx, inst, d, st)
-        ctx.violation(f"{inst.key} on {d}: level list fails levels_ok / CASE shape: {why}",
-                      {"case": {"comparison": inst.key, "dialect": d, "levels": [(l["null"], l["sql"]) for l in st["levels"]], "case_sql": st["case_sql"]},
-                       "implementation": "levels_ok && same_expr case (gen_case ls) = false  " + why,
-                       "specification": "null level first, ELSE last, thresholds of a family strict-to-loose, CASE maps levels to -1, n-1..1, 0"},
-                      {"comparison": inst.name, "dialect": d, "levels_ok": False})
+        k = st.get("mismatch_level")
+        ctx.violation(f"{inst.key} on {d}: emitted level list is not the documented one / fails levels_ok / CASE shape: {why}",
+                      {"case": {"comparison": inst.key, "dialect": d, "levels": [(l["null"], l["sql"]) for l in st["levels"]], "case_sql": st["case_sql"],
+                                "first_mismatching_level": k, "documented_level": st["expected"][k][1] if k is not None and k < len(st["expected"]) else None},
+                       "implementation": "levels_ok && same_expr case (gen_case ls) && levels_match ls documented = false  " + why,
+                       "specification": "the documented level list: null level first (with the configured validity pattern / date parsing), ELSE last, "
+                                        "thresholds strict-to-loose, CASE maps levels to -1, n-1..1, 0"},
+                      {"comparison": inst.name, "dialect": d, "levels_ok": False}, found_input=False)
     if err1 or err2:
         ctx.violation("translator obligations could not be evaluated", {"broken": "C16_t1/C16_t2 shards"}, found_input=False)
